@@ -214,7 +214,7 @@ func tableSequence(o *Out, r *rand.Rand, seqNo, nOps int) {
 	// every fifth sequence starts INSIDE the table's initial seeding phase (the production default keeps it open until the
 	// first refresh has finished): nodes that contact us are not added yet, everything else is as ever; the phase is ended
 	// after a third of the operations
-	preInit := seqNo%5 == 2
+	preInit := seqNo%5 == 2 && seqNo%4 != 3
 	var tab *portalwire.Table
 	var err error
 	if preInit {
@@ -484,6 +484,22 @@ func tableSequence(o *Out, r *rand.Rand, seqNo, nOps int) {
 		if panicked {
 			break // the table's state after a panic (mutex possibly held) is undefined: end this sequence
 		}
+	}
+	// LAN-heavy sequences end with a burst of fresh records for every id of the farthest bucket (half of all ids fall into
+	// it): far more newcomers than a replacement list holds
+	if seqNo%4 == 3 {
+		func() {
+			defer func() { _ = recover() }()
+			for i := 0; i < nIds; i++ {
+				if tab.VerifBucketIndex(ids[i]) != tab.VerifBucketIndex(ids[0]) {
+					continue
+				}
+				k := newRec(i)
+				ok := tab.VerifAddNode(recs[k].node, false, false)
+				snap, _ := ts.snapshot()
+				o.Case(fmt.Sprintf("add r%d inbound=0 live=0", k), fmt.Sprintf("ret=%d %s", b2i(ok), snap))
+			}
+		}()
 	}
 	tab.VerifCloseNoLoop()
 }
